@@ -1,4 +1,6 @@
 import DustVerif.Model.XcdrWF
+import DustVerif.Model.Key
+import DustVerif.Model.Assign
 import DustVerif.Spec.Xcdr
 import DustVerif.Driver.Util
 /-! Line-protocol driver of engine `xcdr` (same grammar as `harness/src/bin/xcdr.rs`).
@@ -50,11 +52,11 @@ def pPrim : List Char → Option (Prim × List Char)
   | 'y' :: r => some (.byte, r)
   | _ => none
 
-def takeFlags : List Char → (Bool × Bool) × List Char
-  | 'o' :: r => let ((_, m), r') := takeFlags r; ((true, m), r')
-  | 'k' :: r => takeFlags r
-  | 'm' :: r => let ((o, _), r') := takeFlags r; ((o, true), r')
-  | cs => ((false, false), cs)
+def takeFlags : List Char → (Bool × Bool × Bool) × List Char
+  | 'o' :: r => let ((_, m, k), r') := takeFlags r; ((true, m, k), r')
+  | 'k' :: r => let ((o, m, _), r') := takeFlags r; ((o, m, true), r')
+  | 'm' :: r => let ((o, _, k), r') := takeFlags r; ((o, true, k), r')
+  | cs => ((false, false, false), cs)
 
 partial def pInts : List Char → Option (List Int × List Char)
   | cs => match pInt cs with
@@ -63,7 +65,7 @@ partial def pInts : List Char → Option (List Int × List Char)
     | _ => none
 
 mutual
-  partial def pTy : List Char → Option (Ty × List Char)
+  partial def pTy : List Char → Option (KTy × List Char)
     | 's' :: r => some (.str, r)
     | 'Q' :: r =>
       let r1 := (takeDigits r).2
@@ -91,15 +93,15 @@ mutual
         if h == .i8 || h == .i16 || h == .i32 then (pInts r1).map fun (ls, r2) => (.enum h ls, r2) else none
       | _ => none
     | cs => (pPrim cs).map fun (p, r) => (.prim p, r)
-  partial def pMs : List Char → Option (Ms × List Char)
+  partial def pMs : List Char → Option (KMs × List Char)
     | cs => match pNat cs with
       | none => none
       | some (id, r) =>
-        let ((opt, mu), r1) := takeFlags r
+        let ((opt, mu, key), r1) := takeFlags r
         match r1 with
         | ':' :: r2 => match pTy r2 with
-          | some (t, ',' :: r3) => (pMs r3).map fun (rest, r4) => (.cons id opt mu t rest, r4)
-          | some (t, '}' :: r3) => some (.cons id opt mu t .nil, r3)
+          | some (t, ',' :: r3) => (pMs r3).map fun (rest, r4) => (.cons id opt mu key t rest, r4)
+          | some (t, '}' :: r3) => some (.cons id opt mu key t .nil, r3)
           | _ => none
         | _ => none
 end
@@ -127,9 +129,11 @@ mutual
       | _ => none
 end
 
-def parseTy (s : String) : Option Ty := match pTy s.toList with
+/-- the type with its key flags -/
+def parseKTy (s : String) : Option KTy := match pTy s.toList with
   | some (t, []) => some t
   | _ => none
+def parseTy (s : String) : Option Ty := (parseKTy s).map KTy.erase
 def parseVal (s : String) : Option Val := match pVal s.toList with
   | some (v, []) => some v
   | _ => none
@@ -181,6 +185,19 @@ def serLine (cfg : Cfg) (ver : Ver) (e : Endian) (t : Ty) (v : Val) : Sum String
   else if ver == .v1 && serPanics1 t v then .inl "PANIC"
   else .inr (serTop cfg ver e t v)
 
+def showKErr : KErr → String
+  | .invalidId => "err InvalidId"
+  | .invalidType => "err InvalidType"
+
+def khLine (cfg : Cfg) (kt : KTy) (v : Val) : Option (Except KErr Bytes) := handleOutcome cfg kt v
+
+def showHandle : Option (Except KErr Bytes) → String
+  | none => "PANIC"
+  | some (.ok h) => "ok " ++ hexOf h
+  | some (.error e) => showKErr e
+
+def flatIds (kt : KTy) : List Nat := (flatTy kt).map fun k => k.id
+
 def step (cfg : Cfg) (line : String) : String :=
   match toks line with
   | ["ser", ver, en, ty, val] => match pVer ver, pEnd en, parseTy ty, parseVal val with
@@ -226,6 +243,99 @@ def step (cfg : Cfg) (line : String) : String :=
     | some ver, some t, some v =>
       if isStruct t then (if wfVal cfg ver t v && decide (maxSize t v < 2 ^ 32) then "wf 1" else "wf 0") else "bad-op"
     | _, _, _ => "bad-op"
+  -- C39: assignability of the complete type objects (Model/Assign.lean)
+  | ["asg", tr, tw] => match parseKTy tr, parseKTy tw with
+    | some tr, some tw =>
+      if isStruct tr.erase && isStruct tw.erase then (if assignable tr tw then "asg 1" else "asg 0") else "bad-op"
+    | _, _ => "bad-op"
+  -- C39: the writer's sample decoded with the reader's type
+  | ["evo", ver, en, tw, val, tr] => match pVer ver, pEnd en, parseKTy tw, parseVal val, parseKTy tr with
+    | some ver, some e, some tw, some v, some tr =>
+      if !(isStruct tr.erase && isStruct tw.erase) then "bad-op" else
+      let a := if assignable tr tw then "asg 1" else "asg 0"
+      (match serLine cfg ver e tw.erase v with
+       | .inl s => if s == "bad-op" then s else a ++ " | " ++ s
+       | .inr b =>
+         let d := showRes (deTop cfg tr.erase b)
+         if d == "ALLOC-LIMIT" then d else a ++ " | " ++ d)
+    | _, _, _, _, _ => "bad-op"
+  -- model only: hypotheses of C39_project_partial and the expected reader view
+  | ["evolves", ver, tw, val, tr] => match pVer ver, parseTy tw, parseVal val, parseTy tr with
+    | some ver, some tw, some v, some tr =>
+      if !(isStruct tr && isStruct tw) then "bad-op" else
+      let ok := evolves tr tw && wfVal cfg ver tw v && decide (maxSize tw v < 2 ^ 32) &&
+                decide (maxSize tr (project tr tw v) < 2 ^ 32)
+      (if ok then "evolves 1 " else "evolves 0 ") ++ showVal (project tr tw v)
+    | _, _, _, _ => "bad-op"
+  -- C39 / D49: the typed view for the fixed derived types of the harness
+  | ["typed", ver, pair] =>
+    let a1 := "SA{0:u8}"
+    let a2 := "SA{0:u8,1:u32}"
+    let m1 := "SM{0:u8,2:u16}"
+    let m2 := "SM{2:u16,5:u32,0:u8}"
+    let sel : Option (String × String × String) :=
+      if pair == "a1-a2" then some (a1, "{7}", a2) else if pair == "a2-a1" then some (a2, "{7,9}", a1)
+      else if pair == "a2-a2" then some (a2, "{7,9}", a2) else if pair == "m1-m2" then some (m1, "{7,5}", m2)
+      else if pair == "m2-m1" then some (m2, "{5,9,7}", m1) else none
+    (match sel, pVer ver with
+     | some (tw, v, tr), some ver => match parseTy tw, parseVal v, parseTy tr with
+       | some tw, some v, some tr =>
+         (match deTop cfg tr (serTop cfg ver .le tw v) with
+          | .ok x _ => "dynamic ok | typed " ++ (match typedView tr x with | some y => "Some(" ++ showVal y ++ ")" | none => "None")
+          | .err er _ => "dynamic " ++ showErr er ++ " | typed -"
+          | .panic _ => "PANIC")
+       | _, _, _ => "bad-op"
+     | _, _ => "bad-op")
+  -- C11 / C12: instance handle (Model/Key.lean)
+  | ["kh", ty, val] => match parseKTy ty, parseVal val with
+    | some kt, some v => if isStruct kt.erase && shapeOk kt.erase v then showHandle (khLine cfg kt v) else "bad-op"
+    | _, _ => "bad-op"
+  -- same as `kh`; the third token (the specification's key bytes, for the oracle) is ignored
+  | ["khx", ty, val, _] => match parseKTy ty, parseVal val with
+    | some kt, some v => if isStruct kt.erase && shapeOk kt.erase v then showHandle (khLine cfg kt v) else "bad-op"
+    | _, _ => "bad-op"
+  -- model only: hypotheses of C11_iff_partial / C12_rule_partial
+  | ["wfk", ty, val] => match parseKTy ty, parseVal val with
+    | some kt, some v => if isStruct kt.erase then (if wfKey cfg kt v then "wfk 1" else "wfk 0") else "bad-op"
+    | _, _ => "bad-op"
+  | ["khrt", ver, en, ty, val] => match pVer ver, pEnd en, parseKTy ty, parseVal val with
+    | some ver, some e, some kt, some v =>
+      if !(isStruct kt.erase && shapeOk kt.erase v) then "bad-op" else
+      let hw := showHandle (khLine cfg kt v)
+      if hw == "PANIC" then "PANIC" else
+      -- the reader decodes the sample and derives the handle from the decoded value
+      let alive : String := match serLine cfg ver e kt.erase v with
+        | .inl s => s
+        | .inr b => match deTop cfg kt.erase b with
+          | .ok x _ => showHandle (khLine cfg kt x)
+          | .err er _ => showErr er
+          | .panic .alloc => "ALLOC-LIMIT"
+          | .panic _ => "PANIC"
+      -- dispose / unregister: the key holder is serialized and decoded with the key-holder type
+      let disposed : String :=
+        if !(flatIds kt).Nodup then "dup-ids" else
+        match keyHolder kt v with
+        | .error er => showKErr er
+        | .ok kvs =>
+          let kht := keyHolderTy kt
+          let khv := Val.struct (entriesVals kvs)
+          match serLine cfg ver e kht.erase khv with
+          | .inl s => s
+          | .inr b => match deTop cfg kht.erase b with
+            | .ok x _ => showHandle (khLine cfg kht x)
+            | .err er _ => showErr er
+            | .panic .alloc => "ALLOC-LIMIT"
+            | .panic _ => "PANIC"
+      hw ++ " | " ++ alive ++ " | " ++ disposed
+    | _, _, _, _ => "bad-op"
+  -- model only: the key bytes according to the specification (big-endian XCDR1 of the key members)
+  | ["keyspec", ty, val] => match parseKTy ty, parseVal val with
+    | some kt, some v =>
+      if !(isStruct kt.erase && shapeOk kt.erase v) then "bad-op" else
+      match keyHolder kt v with
+      | .ok kvs => "ok " ++ hexOf (Spec.fmembers Spec.Dialect.dust .v1 .be (entriesMs kvs) (entriesVals kvs) 0)
+      | .error er => showKErr er
+    | _, _ => "bad-op"
   | ["sizeof"] => s!"char={Prim.c8.memSize} string=24 dyn=48"
   | _ => "bad-op"
 
